@@ -1,6 +1,7 @@
 (* C19 — Source references designate the user line that created each MIR element. *)
 From Coq Require Import ZArith List String Bool Ascii.
 From NadaV.Gen Require GenSourceRef.
+From NadaV.Spec Require Tables.
 From NadaV.Model Require Import SourceRef.
 From NadaV.Proofs Require Import C19Proofs.
 Import ListNotations.
@@ -15,10 +16,8 @@ Theorem C19_code_constants :
   /\ GenSourceRef.li_index_minus = 1%Z /\ GenSourceRef.li_split = "src.splitlines()"
   /\ GenSourceRef.bf_hops = 2%Z /\ GenSourceRef.bf_walks = true
   /\ GenSourceRef.bf_walk_pred = "_in_package(backend_frame.f_code.co_filename)"
-  /\ GenSourceRef.sr_private_helpers =
-       ["_PACKAGE_DIR = os.path.dirname(os.path.abspath(__file__))";
-        "def _in_package(filename: str) -> bool: ; DOC""""Returns True for the source files of the nada_dsl package itself."""""" ;     return os.path.abspath(filename).startswith(_PACKAGE_DIR + os.sep)"]
-  /\ GenSourceRef.li_pre = C19Proofs.expected_li_pre.
+  /\ GenSourceRef.sr_private_helpers = Tables.sr_private_helpers
+  /\ GenSourceRef.li_pre = Tables.li_pre /\ GenSourceRef.bf_rest = Tables.bf_rest.
 Proof. repeat split; reflexivity. Qed.
 Print Assumptions C19_code_constants.
 
